@@ -98,6 +98,17 @@ class DDPDistributor(DistributorInterface):
         )
         group_rank: int = dist.get_rank(group=self._dist_group)
 
+        # NOTE: Process groups must be created by all ranks in the same order. Instantiate the device meshes
+        # used for the optimizer states of every group rank here, instead of lazily (and only on the ranks
+        # that own a block) in _allocate_zeros_distributed_tensor.
+        for group_source_rank in range(self._group_size):
+            get_device_mesh(
+                device_type=self._global_blocked_params[0].device.type,
+                mesh=tuple(
+                    range(group_source_rank, self._global_size, self._group_size)
+                ),
+            )
+
         # Assign ranks to blocks with their respective buffer size.
         buffer_size_ranks = self._distribute_buffer_sizes(
             buffer_sizes=tuple(
